@@ -117,7 +117,7 @@ func (d *Driver) ResetPath() {
 var rtClass = map[string]string{
 	"AssertDivideByZero": "divide", "AssertIndexRange": "bounds", "AssertNegativeShift": "shift", "NewSlice3": "bounds", "StringSlice": "bounds",
 	"MakeSlice": "bounds", "PanicSliceConvert": "bounds", "AssertNilDeref": "nilptr", "Panic": "",
-	"ChanSend": "chan", "ChanTrySend": "chan", "ChanClose": "chan", "Select": "chan", "TrySelect": "chan",
+	"MapAssign": "nilmap", "ChanSend": "chan", "ChanTrySend": "chan", "ChanClose": "chan", "Select": "chan", "TrySelect": "chan",
 }
 
 // Call implements llfe.Bridge: runtime entry points run on front end G.
@@ -131,7 +131,26 @@ func (d *Driver) Call(x *llfe.Exec, name string, fn *llfe.Func, args []Value, re
 		return nil, false
 	}
 	if short == "Panic" {
-		d.raise("", args[0], "user panic")
+		// a panic raised by compiled code with a runtime error value (failed
+		// type assertion): classify it by the dynamic type of the value
+		cls := ""
+		if a, ok := args[0].(Agg); ok && len(a) == 2 {
+			if t, ok := a[0].(*smt.Term); ok && t.IsConst() {
+				if al := d.M.Mem.Find(t.Uint()); al != nil && strings.Contains(al.Name, "runtime.TypeAssertionError") {
+					cls = "typeassert"
+				} else if al != nil && al.Name == "@_llgo_string" {
+					// llgo raises failed assertions with a string value: read the message
+					func() {
+						defer func() { recover() }()
+						sv := d.M.Mem.Load(a[1].(*smt.Term), d.RT.LayoutOf(types.Typ[types.String]), nil, "panic message")
+						if msg, ok := d.RT.ConstStringOf(sv); ok && strings.Contains(msg, "type assertion") {
+							cls = "typeassert"
+						}
+					}()
+				}
+			}
+		}
+		d.raise(cls, args[0], "panic raised by compiled code")
 	}
 	// LLVM passes the same value shapes front end G uses; only the nesting of
 	// multiple results differs (tuple), which is identical as well.
